@@ -97,6 +97,7 @@ theorem stepInstr_congr {t : Tx} {prices : Dims} {base base' : Key → Option Va
       simp only [stepInstr]
       rw [vRemove_congr (fun hw => h _ (Or.inr hw))]
     | fail => rfl
+    | putBig k => rfl
 
 /-! ## write confinement: pending changes only at keys with Write permission -/
 
@@ -197,6 +198,11 @@ theorem stepInstr_wc {t : Tx} {prices : Dims} {base : Key → Option Val} {ls ls
       simp only [stepInstr, failWith] at e
       rcases e with e | e <;> cases e
       exact ⟨hs, hs⟩
+    | putBig k =>
+      simp only [stepInstr, failWith] at e
+      rcases e with e | e <;> split at e <;> cases e
+      · exact ⟨hs, hs⟩
+      · exact ⟨hs, hs⟩
 
 theorem runFrom_wc {t : Tx} {prices : Dims} {base : Key → Option Val} :
     ∀ (rem : List Instr) (ls ls' : Local), LWC t ls → runFrom t prices base ls rem = .ok ls' → LWC t ls'
